@@ -154,7 +154,12 @@ func runC09(r *simkit.Run, c Cfg) {
 		kind   int // 0 direct, 1 uncache
 		sent   c09Sent
 		maddrs []multiaddr.Multiaddr
+		// impatient: first with a context that has already ended
+		impatient bool
 	}
+	impatientRun := tp.Chance(1, 3, "impatientDirect")
+	gone, goneCancel := context.WithCancel(bg)
+	goneCancel()
 	next := map[string]*pend{}
 	stop := false
 	for i := 0; i < nprod; i++ {
@@ -169,6 +174,22 @@ func runC09(r *simkit.Run, c Cfg) {
 				if p.kind == 1 {
 					rc.UncacheCid(p.sent.c)
 					continue
+				}
+				if p.impatient {
+					// a caller whose context has ended before the call: the
+					// announcement is handed over all the same (nil), or the
+					// call returns the context's error and leaves no trace -
+					// which of the two is the runtime's pick when the queue
+					// has room, so the call is repeated until the pick cannot
+					// matter; the ordinary call below makes up for sixteen
+					// refusals in a row and is a duplicate otherwise
+					for k := 0; k < 16; k++ {
+						if err := rc.Direct(gone, p.sent.c, peer.AddrInfo{ID: p.sent.peer.ID, Addrs: p.maddrs}); err == nil {
+							break
+						} else if err != context.Canceled && !stop {
+							r.Violate("c09.direct", "Direct with a cancelled context returned %v", err)
+						}
+					}
 				}
 				err := rc.Direct(bg, p.sent.c, peer.AddrInfo{ID: p.sent.peer.ID, Addrs: p.maddrs})
 				if err != nil && !stop {
@@ -186,8 +207,6 @@ func runC09(r *simkit.Run, c Cfg) {
 	// next call). What it must never do is take an announcement and not
 	// return it.
 	abandons := tp.Chance(1, 3, "abandonedNext")
-	gone, goneCancel := context.WithCancel(bg)
-	goneCancel()
 	r.Go("consumer", func(t *simkit.Task) {
 		for {
 			t.Yield("next")
@@ -308,6 +327,10 @@ func runC09(r *simkit.Run, c Cfg) {
 		} else {
 			who := peers[tp.Choose(len(peers), "peer")]
 			pd.sent = c09Sent{c: ci, peer: who}
+			// (not near a full duplicate cache: a refused call puts the CID
+			// in and takes it out again, which at 64 entries pushes out the
+			// oldest - a second-order effect left out of the model)
+			pd.impatient = impatientRun && len(model.order) < 40 && tp.Chance(1, 2, "impatient")
 			na := tp.Choose(4, "naddrs")
 			for j := 0; j < na; j++ {
 				a := c09Addrs[tp.Choose(len(c09Addrs), "addr")]
